@@ -215,6 +215,26 @@ fn main() {
         };
         out.push(serde_json::json!({"scenario": "begin_capture_set_block_in_extending_child", "check": "begin_capture_mode", "ok": ok, "detail": detail}));
     }
+    // ---- the code generator's per-thread buffer pools carry nothing into the next compilation: a template that is
+    //      compiled again after an unrelated one came and went fails with the same located error
+    {
+        const FAILING: &str = "{% autoescape 'bogus' %}x{% endautoescape %}";
+        const BYSTANDER: &str = "{% set ns = namespace() %}{% set ns.value = 1 %}{% if a %}{% for x in a %}{{ x }}{% endfor %}{% endif %}ok";
+        let mut env = Environment::new();
+        env.set_debug(true);
+        env.add_template("failing", FAILING).unwrap();
+        let e0 = env.get_template("failing").unwrap().render(()).unwrap_err();
+        let before = (format!("{:?}", e0.kind()), e0.line(), e0.range());
+        env.add_template("bystander", BYSTANDER).unwrap();
+        let _ = env.get_template("bystander").unwrap().render(());
+        env.remove_template("bystander");
+        env.remove_template("failing");
+        env.add_template("failing", FAILING).unwrap();
+        let e1 = env.get_template("failing").unwrap().render(()).unwrap_err();
+        let after = (format!("{:?}", e1.kind()), e1.line(), e1.range());
+        out.push(serde_json::json!({"scenario": "recompiled_template_after_unrelated_one", "check": "pool_buffers", "ok": before == after,
+            "detail": format!("error of the failing template before {:?} and after an unrelated template (with an attribute assignment) was compiled and removed {:?}", before, after)}));
+    }
     // ---- fuel: straight-line templates; the caller compares `consumed` with the number of charged instructions
     for (name, src) in [
         ("fuel_text_and_prints", "a{{ x }}b{{ y }}c"),
